@@ -6,9 +6,9 @@ package main
 
 import (
 	"fmt"
-	os_ "os"
 	"go/constant"
 	"go/token"
+	os_ "os"
 	"sort"
 	"strings"
 
@@ -64,6 +64,15 @@ func (c *Ctx) pathClassRec(v ssa.Value, out classSet, seen map[ssa.Value]bool, d
 		}
 	}
 	v = resolve(v)
+	// a path kept in a field of a store object (l.lockPath, l.path): the union over what is ever stored there
+	if _, _, isField := fieldLoad(v); isField {
+		if os, ok := fieldOrigins(v, 0); ok && len(os) > 0 {
+			for _, o := range os {
+				c.pathClassRec(o.V, out, seen, d+1)
+			}
+			return
+		}
+	}
 	switch x := v.(type) {
 	case *ssa.Const:
 		if x.Value != nil && x.Value.Kind() == constant.String {
